@@ -136,9 +136,13 @@ def programs(tier, seed):
         uni = progs.universe_slice(2, step=997, offset=seed)[:120] + progs.universe_slice(1, step=9, offset=seed)
     else:
         uni = progs.universe_slice(2, step=53, offset=seed) + progs.universe_slice(1, step=2, offset=seed)
+    import re
     for p in base:
         for o in optsets:
             items.append(dict(label=p["label"], src=p["src"], argv=p["argv"] + o))
+        if tier == "quick" and re.search(r"[A-Za-z_0-9]\[[^\]]", re.sub(r"/(?:[^/\\\n]|\\.)+/", "", p["src"])):
+            # programs that index a string: also without the bounds check (the byte is then read straight from the buffer)
+            items.append(dict(label=p["label"], src=p["src"], argv=p["argv"] + ["-funsafe-string-indexing"]))
     for i, p in enumerate(uni):
         for o in (optsets if tier == "thorough" else [optsets[i % len(optsets)]]):
             items.append(dict(label=p["label"], src=p["src"], argv=p["argv"] + o))
